@@ -103,7 +103,7 @@ def random_reaction(rnd, species, params, tag, types=None, max_order=4, allow_de
 
 
 def network(rnd, nsp=None, nrx=None, counters=False, delays=False, nonmass_consumers=False, max_order=3, k_lo=0.05, k_hi=3.0,
-            x0_hi=8, delay_scale=1.0, named_prob=0.5, types=None, delayed_reactants=False):
+            x0_hi=8, delay_scale=1.0, named_prob=0.5, types=None, delayed_reactants=False, share_prob=0.0):
     """A reaction network for trajectory monitors.  Every mass-action rate uses exactly its reactants; reactions with a
     Hill / general rate consume species only when nonmass_consumers is set (those networks are run in safe mode)."""
     nsp = nsp or rnd.randint(2, 6)
@@ -145,6 +145,13 @@ def network(rnd, nsp=None, nrx=None, counters=False, delays=False, nonmass_consu
                 # legitimately leave the non-negative domain; monitors that assert non-negativity switch them off
                 r["delay"]["reactants"] = []
         rx.append(r)
+    if share_prob and rnd.random() < share_prob:
+        # the mass-action reactions are written with ONE parameter dictionary (same Python object, see spec.build_model)
+        ma = [r for r in rx if r["type"] == "massaction"]
+        if len(ma) >= 2:
+            for r in ma:
+                r["fields"] = dict(ma[0]["fields"])
+                r["share"] = "g0"
     x0 = {s: rnd.choice([0, 0, 1, 2, 3, rnd.randint(0, x0_hi), rnd.randint(2, x0_hi)]) for s in species}
     spec = {"species": species, "x0": x0, "params": params, "reactions": rx, "rules": []}
     if counters:
